@@ -436,7 +436,14 @@ func maybeDeflate(data []byte, maxSize int64, decoder func([]byte) error) error 
 		maxSize = defaultMaxDecompressedResponseSize
 	}
 
-	lr := io.LimitReader(flate.NewReader(bytes.NewReader(data)), maxSize+1)
+	// Read one byte past the limit to detect oversized input; saturate so that
+	// a limit of math.MaxInt64 does not wrap around to a negative read limit.
+	readLimit := maxSize + 1
+	if readLimit < maxSize {
+		readLimit = maxSize
+	}
+
+	lr := io.LimitReader(flate.NewReader(bytes.NewReader(data)), readLimit)
 
 	deflated, err := io.ReadAll(lr)
 	if err != nil {
